@@ -312,7 +312,14 @@ class Batch:
         return out
 
 
+SLOW_MS = 2600
+
+
 def _action(kind):
+    if kind.endswith("+slow"):
+        # the stop request, and from then on the lock file takes a while to open (a loaded machine, a network file
+        # system): the run needs more than two seconds to wind down
+        return _action(kind[:-5]) + ";op=open,path=Breadlog.lock,nth=0:sigdelay=%d" % SLOW_MS
     if kind in ("kill_before", "kill_after"):
         return kind
     if kind in ("INT", "TERM"):
@@ -354,6 +361,8 @@ def sweep(binary, scen, mode, kinds, batch, verdict, follow=None, ks=None, only_
             plan = "at=%d:%s" % (k, _action(kind))
             sig = dict(base_sig)
             sig["fault"] = kind if kind in ("kill_before", "kill_after", "INT", "TERM", "short") else "errno"
+            if kind.endswith("+slow"):
+                sig["fault"], sig["slow"] = kind[:-5], True
             sig["errno"] = kind if kind in ERR else ""
             sig.update(d)
             sig["renames_before"] = min(sig["renames_before"], 1)
